@@ -5,11 +5,15 @@ Line-protocol driver of the version model (`driver versions`). Op grammar (share
 `harness/version_driver.cpp`, see `tools/props/versions_common.py`):
 
 ```
-job <j> req=<mask> write=<mask> check=<mask> [opt=<mask>] [kind=tpl|dyn]
-chunkdefault <n> | chunkfn <mask> <min> <max>
+job <j> req=<mask> write=<mask> check=<mask> [opt=<mask>] [kind=tpl|dyn] [af=<mask>] [cf=all|even|odd]
+        af: archetypes having one of these components are vetoed by extraArchetypeFilterCheck
+        cf: extraChunkFilterCheck accepts all / even / odd chunk indices
+chunkdefault <n> | chunkfn <mask> <min> <max> | dep <C> <mask>
 create <mask> | assign <e> <C> | remove <e> <C> | destroy <e>
 getmut <e> <C> | getconst <e> <C> | dirty <e> <C>
-update | run <j> | dump
+update | run <j> [do <act> ; <act> ; ...] | dump
+        act = getmut|dirty|getconst <e> <C> (immediate)  |  create <mask> | assign|remove <e> <C> | destroy <e>
+              (through the command buffer, applied when the run unlocks)
 ```
 A mask is a string of component letters `A`..`H` or `-`.
 -/
@@ -33,7 +37,12 @@ def parseJob (ws : List String) : Option JobSpec := do
   let req ← (kv ws "req").bind parseMask
   let wr ← (kv ws "write").bind parseMask
   let ck ← (kv ws "check").bind parseMask
-  pure ⟨normMask req, normMask ck, normMask wr⟩
+  let af ← ((kv ws "af").getD "-") |> parseMask
+  let cf : Option Nat := match kv ws "cf" with
+    | some "even" => some 1      -- accept even chunk indices: parity 1 is skipped
+    | some "odd" => some 0
+    | _ => none
+  pure { req := normMask req, check := normMask ck, upd := normMask wr, afDeny := normMask af, cfSkip := cf }
 
 def showVer (v : Nat) : String := toString v
 
@@ -97,6 +106,35 @@ def tabulate (a : Arch) : Arch :=
 def normalize (s : State) : State :=
   { s with archs := s.archs.map tabulate, pending := fun _ _ _ => false, touched := fun _ _ _ => false }
 
+/-- a body action and its short result code -/
+def parseAct (ws : List String) : Option Op :=
+  match ws with
+  | ["create", m] => (parseMask m).map Op.create
+  | ["destroy", e] => e.toNat?.map Op.destroyNow
+  | [op, e, c] =>
+    match e.toNat?, parseMask c with
+    | some e, some [c] =>
+      match op with
+      | "assign" => some (.assign e c) | "remove" => some (.remove e c)
+      | "getmut" => some (.getMut e c) | "getconst" => some (.getConst e c)
+      | "dirty" => some (.markDirty e c) | _ => none
+    | _, _ => none
+  | _ => none
+
+def actCode (s : State) (o : Out) : String :=
+  match o with
+  | .created e => s!"c{e}:{csOf s e}"
+  | .ok => "ok"
+  | .access true => "a1"
+  | .access false => "a0"
+  | _ => "no"
+
+/-- run with a body: `State.hstep (.runDo j body)`, keeping the result of every action -/
+def runBody (s : State) (body : List Op) : State × List (Op × String) :=
+  (bodyOrder s.nextEnt body).foldl (fun (p : State × List (Op × String)) o =>
+    let r := p.1.step o
+    (r.1, p.2 ++ [(o, actCode r.1 r.2)])) (s, [])
+
 def stepLine (st0 : State × Nat) (l : String) : IO (State × Nat) := do
   let st := (normalize st0.1, st0.2)
   let (s, nj) := st
@@ -108,6 +146,10 @@ def stepLine (st0 : State × Nat) (l : String) : IO (State × Nat) := do
     match n.toNat? with
     | some n => let r := s.step (.setDefault n); IO.println (if n = 0 then "noop" else "ok"); return (r.1, nj)
     | none => bad
+  | ["dep", c, ds] =>
+    match parseMask c, parseMask ds with
+    | some [c], some ds => let r := s.step (.addDep c ds); IO.println "ok"; return (r.1, nj)
+    | _, _ => bad
   | ["chunkfn", m, mn, mx] =>
     match parseMask m, mn.toNat?, mx.toNat? with
     | some m, some mn, some mx => let r := s.step (.addFn m mn mx); IO.println "ok"; return (r.1, nj)
@@ -152,17 +194,32 @@ def stepLine (st0 : State × Nat) (l : String) : IO (State × Nat) := do
       return (r.1, nj)
     | none => bad
   | ["update"] => let r := s.step .update; IO.println s!"update w={r.1.w}"; return (r.1, nj)
-  | ["run", j] =>
+  | "run" :: j :: rest =>
     match j.toNat? with
     | some j =>
       match s.jobs[j]? with
       | none => bad
       | some J =>
-        let blk := showBlocks s J
-        let r := s.jobRun j
-        let last := match r.1.jobs[j]? with | some J' => showLast J'.last | none => "-"
-        IO.println s!"run {j} n={r.2.length} sel={r.2.length} ents={showCsv r.2} blk={blk} w={r.1.w} last={last}"
-        return (r.1, nj)
+        let acts : Option (List Op) :=
+          match rest with
+          | [] => some []
+          | "do" :: ws => ((" ".intercalate ws).splitOn ";").mapM (fun a => parseAct (words a))
+          | _ => none
+        match acts with
+        | none => bad
+        | some body =>
+          let blk := showBlocks s J
+          let r := s.jobRun j
+          let last := match r.1.jobs[j]? with | some J' => showLast J'.last | none => "-"
+          -- `State.hstep (.runDo j body)`: the body runs only when something was selected
+          let (s2, res) := if r.2.isEmpty then (r.1, []) else runBody r.1 body
+          -- results in the order the actions were written
+          let codes := body.map (fun o => match res.find? (fun p => p.1 == o) with
+            | some p => p.2
+            | none => if r.2.isEmpty then "-" else "no")
+          let doS := if body.isEmpty then "" else " do=" ++ ";".intercalate codes
+          IO.println s!"run {j} n={r.2.length} sel={r.2.length} ents={showCsv r.2} blk={blk} w={r.1.w} last={last}{doS}"
+          return (s2, nj)
     | none => bad
   | ["dump"] => IO.println (showDump s); return st
   | _ => bad
